@@ -28,7 +28,7 @@ LINK = cube("link", "copy")
 WITH_STATE = bool(cube("state", False))
 DEPTH = cube("depth", [0, 1, 2])
 PROP = cube("prop", "C01")
-NAME_SETS = [["a", "b", "c"], ["é x", "b\\c", ".h.dir"], ["-", "a b", "ü"]]
+NAME_SETS = [["a", "b", "c"], ["é x", "b\\c", ".h.dir"], ["-", "a b", "ü"], [".a", "a", "..b"]]  # set 3: dot-files next to their undotted twins
 NAMES = NAME_SETS[int(cube("names", 0))]
 DIRS = ["", "d", "d/é e"]
 POOL = [b"", b"line1\r\nline2\r\n", b"\x00\x01\xffbinary", None]  # None = same bytes as slot 0
